@@ -2,6 +2,8 @@
 
 package kgo
 
+import "time"
+
 // Verification hooks (build tag "verif"): add-only accessors used by the
 // property checks under /verif. Nothing here is compiled without the tag.
 
@@ -55,3 +57,10 @@ func VerifSetMaxDecompressedSize(n int64) int64 {
 	maxDecompressedSize = n
 	return old
 }
+
+// verifBusyYield is called on code paths that busy-wait on real time (the share
+// fetch loop re-polls without sleeping while its one second ack timer runs and
+// there is nothing to fetch). Under a testing/synctest bubble CPU time costs no
+// virtual time, so such a bounded busy-wait would never end; with the verif tag
+// each iteration costs one millisecond instead.
+func verifBusyYield() { time.Sleep(time.Millisecond) }
